@@ -105,6 +105,10 @@ def work(job):
     def setup():
         dps, ps = _inputs(n, D, G, outl, job["sizes"])
         td = TreeJointDistribution(FSCRPDistribution(Lin(alpha)))
+        # the run loop re-assigns the concentration on the existing object: the same densities must come out
+        td_assigned = TreeJointDistribution(FSCRPDistribution(Lin(V.var("alpha_before"))))
+        td_assigned.prior.alpha = Lin(alpha)
+        state["td_assigned"] = td_assigned
         lik = {i: [[dps[i].value[d, g].e for g in range(G)] for d in range(D)] for i in range(n)}
         ref = fscrp_joint(forest, lik, G, D, alpha, V, outlier_p=ps)
         state.update(dps=dps, td=td, ref=ref)
@@ -134,6 +138,10 @@ def work(job):
             b = td.log_p_one(tree)
             c, d = td.compute_both_log_p_and_log_p_one(tree)
             out = [("log_p", a, 0), ("log_p_one", b, 1), ("fused.log_p", c, 0), ("fused.log_p_one", d, 1)]
+            ta = state["td_assigned"]
+            c2, d2 = ta.compute_both_log_p_and_log_p_one(tree)
+            out += [("after-alpha-assignment.log_p", ta.log_p(tree), 0), ("after-alpha-assignment.log_p_one", ta.log_p_one(tree), 1),
+                    ("after-alpha-assignment.fused.log_p", c2, 0), ("after-alpha-assignment.fused.log_p_one", d2, 1)]
             last = tree.node_last_added_to
             if last == tree.outlier_node_name or last in tree.nodes:
                 # particles hold trees through TreeHolder; it is only ever built on trees whose last-edited clone is
@@ -252,10 +260,13 @@ def replay(case):
     lik = {i: [[math.exp(dps[i].value[d, g]) for g in range(G)] for d in range(D)] for i in range(n)}
     ref = fscrp_joint(forest, lik, G, D, alpha, float, outlier_p=ps)
     worst = 0.0
+    ta = TreeJointDistribution(FSCRPDistribution(alpha * 3.7 + 0.2))
+    ta.prior.alpha = alpha
     for name, tree in variants(forest, dps, (D, G)):
         a, b = td.log_p(tree), td.log_p_one(tree)
         c, d = td.compute_both_log_p_and_log_p_one(tree)
-        for got, want in ((a, ref[0]), (b, ref[1]), (c, ref[0]), (d, ref[1])):
+        c2, d2 = ta.compute_both_log_p_and_log_p_one(tree)
+        for got, want in ((a, ref[0]), (b, ref[1]), (c, ref[0]), (d, ref[1]), (ta.log_p(tree), ref[0]), (ta.log_p_one(tree), ref[1]), (c2, ref[0]), (d2, ref[1])):
             worst = max(worst, abs(float(got) - math.log(want)))
     return worst > 1e-6, {"max_abs_log_diff": worst}
 
